@@ -19,13 +19,35 @@ from mc.oracles import seqscores as O
 
 
 class TableLM(SequentialLanguageModel):
-    def __init__(self, V, depth, seed, rows=2):
+    def __init__(self, V, depth, seed, rows=2, poison_eos=None):
         super().__init__(V)
         rng = random.Random(1000003 * seed + 101 * V + depth)
         self.depth = depth
         self.ncodes = O.num_codes(V, depth)
         tab = [[[round(rng.uniform(-2.0, 2.0), 3) for _ in range(V)] for _ in range(self.ncodes)]
                for _ in range(rows)]
+        self.poisoned = 0
+        if poison_eos is not None:
+            # scores after a history that already contains the end-of-sequence token are outside the valid
+            # region of every path: they are arbitrary, also non-finite (rotating: finite garbage, all -inf,
+            # nan in one class / everywhere, +inf in one class / everywhere).  No reference ever reads them.
+            ninf, nan, pinf = float("-inf"), float("nan"), float("inf")
+            for code in range(self.ncodes):
+                if poison_eos not in O.prefix_of(code, V):
+                    continue
+                for r in range(rows):
+                    kind = (code + r) % 6
+                    if kind == 1:
+                        tab[r][code] = [ninf] * V
+                    elif kind == 2:
+                        tab[r][code][code % V] = nan
+                    elif kind == 3:
+                        tab[r][code] = [nan] * V
+                    elif kind == 4:
+                        tab[r][code][code % V] = pinf
+                    elif kind == 5:
+                        tab[r][code] = [pinf] * V
+                    self.poisoned += kind != 0
         self.register_buffer("table", torch.tensor(tab, dtype=torch.float32))
         # the oracle reads exactly the float32 values the implementation sees
         self.table_list = self.table.double().tolist()
